@@ -1,1 +1,23 @@
 //! Facade for `kbucket.rs` and `kbucket/*`.
+use crate::kbucket::filter::{IpBucketFilter, IpTableFilter};
+use crate::kbucket::KBucketsTable;
+use crate::Enr;
+use enr::NodeId;
+use std::time::Duration;
+
+/// `KBucketsTable::new` with the crate-private IP filters selectable.
+pub fn new_table(
+    local: NodeId,
+    pending_timeout: Duration,
+    max_incoming_per_bucket: usize,
+    ip_table_filter: bool,
+    ip_bucket_filter: bool,
+) -> KBucketsTable<NodeId, Enr> {
+    KBucketsTable::new(
+        local.into(),
+        pending_timeout,
+        max_incoming_per_bucket,
+        if ip_table_filter { Some(Box::new(IpTableFilter)) } else { None },
+        if ip_bucket_filter { Some(Box::new(IpBucketFilter)) } else { None },
+    )
+}
